@@ -170,6 +170,12 @@ def configs(tier, rng):
             out.append(dict(rt=rt, res=1.0, until=10, strict=False, sims=[dict(ctl, external=[(3.5 * rt, 6)]), {'step_size': 3}], connect=[(0, 1)]))
             out.append(dict(rt=rt, res=1.0, until=9, strict=False, sims=[dict(ctl, events={'0': [3]}), {}], connect=[]))
     for rt in rts:
+        # a TIME-BASED simulator (it steps by itself every 5 or 3 time units) that also receives external events: from inside a
+        # step, and from outside for a time after its next regular step
+        out.append(dict(rt=rt, res=1.0, until=12, strict=False, sims=[{'step_size': 5, 'events': {'0': [3], '5': [7]}}], connect=[]))
+        out.append(dict(rt=rt, res=1.0, until=12, strict=False, sims=[{'step_size': 5, 'external': [(0.5 * rt, 7)]}, {}], connect=[]))
+        out.append(dict(rt=rt, res=1.0, until=10, strict=False, sims=[{'step_size': 3, 'events': {'0': [1, 2]}, 'external': [(2.5 * rt, 8)]}, {'step_size': 2}], connect=[(0, 1)]))
+    for rt in rts:
         # a slow setup_done(): the clock of the run starts when the simulators are ready, whoever took long to get there
         ctl = {'typ': 'event-based', 'self_steps': False, 'initial': False}
         out.append(dict(rt=rt, res=1.0, until=8, strict=False, sims=[{}, dict(ctl, external=[(8.5 * rt, 6)]), {'setup_delay': 3.5 * rt}], connect=[]))
